@@ -312,6 +312,54 @@ impl SubscriptionMatcher {
         }
     }
 
+    /// Gives every partition followed from LATEST that has not delivered anything yet the given
+    /// starting sequence, so that its history can be re-read.
+    fn resolve_latest_partitions(
+        &mut self,
+        owned_partitions: &HashSet<PartitionId>,
+        start_sequences: &HashMap<PartitionId, u64>,
+    ) {
+        let (partition_ids, from_sequences) = match self {
+            SubscriptionMatcher::Partition {
+                partition_id,
+                from_sequence,
+            } => {
+                if from_sequence.is_none() {
+                    *from_sequence = start_sequences.get(partition_id).copied();
+                }
+                return;
+            }
+            SubscriptionMatcher::AllPartitions { from_sequences } => {
+                (owned_partitions, from_sequences)
+            }
+            SubscriptionMatcher::Partitions {
+                partition_ids,
+                from_sequences,
+            } => (&*partition_ids, from_sequences),
+            SubscriptionMatcher::Stream { .. } | SubscriptionMatcher::Streams { .. } => return,
+        };
+
+        if matches!(from_sequences, FromSequences::Latest) {
+            *from_sequences = FromSequences::Partitions {
+                from_sequences: HashMap::new(),
+                fallback: None,
+            };
+        }
+        if let FromSequences::Partitions {
+            from_sequences,
+            fallback: None,
+        } = from_sequences
+        {
+            for partition_id in partition_ids {
+                if let Some(start_sequence) = start_sequences.get(partition_id) {
+                    from_sequences
+                        .entry(*partition_id)
+                        .or_insert(*start_sequence);
+                }
+            }
+        }
+    }
+
     fn update_from_sequences(
         from_sequences: &mut FromSequences,
         partition_id: PartitionId,
@@ -502,7 +550,10 @@ impl Subscription {
                 Err(broadcast::error::RecvError::Lagged(_)) => {
                     // Don't resubscribe! That would lose buffered messages.
                     // Just re-read history to catch up on any events we missed
-                    // while the channel was lagging.
+                    // while the channel was lagging. A partition followed from LATEST
+                    // that has not delivered anything yet resumes where it started.
+                    matcher
+                        .resolve_latest_partitions(&self.owned_partitions, &self.start_watermarks);
                     self.read_history(&mut matcher).await?;
                 }
             }
